@@ -52,7 +52,7 @@ def dists_view(sb, url, sub="dists"):
     return [(e[0], e[1], e[3]) for e in fsutil.listing(d)]
 
 
-def execute(sb, repos, stores, plans, chooser=None, on_fs_event=None, switch=None, budget=20000, pre_run=None, catch_all=False):
+def execute(sb, repos, stores, plans, chooser=None, on_fs_event=None, switch=None, budget=20000, pre_run=None, catch_all=False, stale=None):
     """repos: list of repo descs; stores: {url: store} or list of such for version switch; plans: {url: plan list}"""
     full = {}
     for url, st in stores.items():
@@ -70,6 +70,9 @@ def execute(sb, repos, stores, plans, chooser=None, on_fs_event=None, switch=Non
                 full2[f"{url}/{k}"] = v
         stores_list.append(full2)
     handler = runner.StoreHandler(stores_list, plan, switch_after=switch["after"] if switch else None, catch_all=catch_all)
+    for url, st in (stale or {}).items():
+        for k, v in st.items():
+            handler.stale[f"{url}/{k}"] = v
     from . import observe
     obs = observe.Obs()
     obs.install()
